@@ -41,6 +41,9 @@ EXTRA_SEEDS = [
     'import m2\npub fn is_even(n) { case n { 0 -> True _ -> is_odd(n - 1) } }\npub fn is_odd(n) { case n { 0 -> False _ -> is_even(n - 1) } }\nfn top() { is_even(m2.c()) }\n',
     'pub fn ping(n) { case n { 0 -> 0 _ -> pong(n - 1) } }\nfn pong(n) { ping(n) + 1 }\n',
     'fn p1(x) { p2(x + 1) }\nfn p2(y) { p3(y) <> "s" }\nfn p3(z) { case z { 0 -> "" _ -> p1(z) } }\nfn solo() { p2(1) }\n',
+    # a labelled field that several variants share (one access, several declarations), next to fields only one variant has
+    'pub type Pet { Dog(name: String, age: Int) Cat(name: String, lives: Int) Fish(name: String) }\nfn n(p: Pet) { p.name }\n'
+    'fn mk() { Dog(name: "x", age: 1).name }\nfn m(p) { case p { Cat(name: n, ..) -> n Dog(age: a, ..) -> a _ -> "" } }\n',
     # a type whose rendering is large (it doubles with every binding: the last one has 2^11 components)
     'fn big() {\n  let a = #(1, "s")\n  let b = #(a, a)\n  let c = #(b, b)\n  let d = #(c, c)\n  let e = #(d, d)\n  let f = #(e, e)\n  let g = #(f, f)\n'
     '  let h = #(g, g)\n  let i = #(h, h)\n  let j = #(i, i)\n  j\n}\nfn use_big() { big() }\n',
@@ -102,6 +105,8 @@ def seeds(out, tier, seed, n_gen):
             res.append({"files": [{"name": f"m{i + 1}", "lex": lex(x)} for i, x in enumerate(t)]})
         else:
             res.append({"files": [{"name": "m1", "lex": lex(t)}, {"name": "m2", "lex": liblex}]})
+            # the same module as a free-standing file: it belongs to no package of the graph, its imports resolve to nothing
+            res.append({"files": [{"name": "m1", "lex": lex(t)}], "shape": "no-package"})
     for f in sorted(glob.glob(os.path.join(vlib.VERIF, "corpus", "**", "*.gleam"), recursive=True)):
         t = open(f, encoding="utf-8").read()
         l = lex(t)
